@@ -111,6 +111,7 @@ static void check_rt(const string& data, const string* mask, uint64_t flags, con
     return fmt("format_data_string(data=%s, mask=%s, flags=%" PRIu64 ") = [%s]", vf::hex(data).c_str(), mask ? vf::hex(*mask).c_str() : "null", flags, esc_text(text).c_str());
   };
   try {
+    vf::poison_errno();
     text = phosg::format_data_string(data, mask, flags);
   } catch (const std::exception& e) {
     C->violation("format_data_string:throws", string("format_data_string threw: ") + e.what(), witness());
@@ -123,6 +124,7 @@ static void check_rt(const string& data, const string* mask, uint64_t flags, con
     uint8_t* pm = mask ? (uint8_t*)malloc(n ? n : 1) : nullptr;
     memcpy(pd, data.data(), n);
     if (pm) memcpy(pm, mask->data(), n);
+    vf::poison_errno();
     string t2 = phosg::format_data_string(n ? pd : pd + 1, n, pm ? (n ? pm : pm + 1) : nullptr, flags);
     free(pd);
     free(pm);
@@ -134,7 +136,9 @@ static void check_rt(const string& data, const string* mask, uint64_t flags, con
   string back, back_nomask;
   try {
     unique_ptr<string> ht(new string(text));
+    vf::poison_errno();
     back = phosg::parse_data_string(*ht, &m2);
+    vf::poison_errno();
     back_nomask = phosg::parse_data_string(*ht);
   } catch (const std::exception& e) {
     C->violation(fmt("roundtrip:%s:parse-throws", form), string("parse_data_string threw on formatter output: ") + e.what(), witness());
@@ -360,8 +364,11 @@ static void check_total(const string& text, const char* gen) {
   string m1 = "junk", m2;
   string d1, d2, d3;
   try {
+    vf::poison_errno();
     d1 = phosg::parse_data_string(*ht, &m1);
+    vf::poison_errno();
     d2 = phosg::parse_data_string(*ht, &m2);
+    vf::poison_errno();
     d3 = phosg::parse_data_string(*ht);
   } catch (const std::exception& e) {
     C->violation(fmt("parse:throws:%s", gen), string("parse_data_string threw: ") + e.what(), "text=" + vf::hex(text));
@@ -737,6 +744,7 @@ static string piece_str(const vector<struct iovec>& v) {
 // reference rendering: whole buffer in one iovec
 static bool render_single(const DumpCase& k, string* out, string* err) {
   IovSet cur(k.data, {}, nullptr);
+  vf::poison_errno();
   try {
     if (k.has_prev) {
       IovSet pv(k.prev, {}, nullptr);
@@ -766,6 +774,7 @@ static void check_partition(const DumpCase& k, const string& ref, const vector<s
   IovSet cur(k.data, cuts, &r);
   string out;
   try {
+    vf::poison_errno();
     if (k.has_prev) {
       IovSet pv(k.prev, pcuts, &r);
       out = phosg::format_data(cur.v.data(), cur.v.size(), k.addr, pv.v.data(), pv.v.size(), k.flags);
@@ -855,52 +864,124 @@ static string read_stream(FILE* f) {
   return s;
 }
 
+// random cuts of n bytes into `pieces` consecutive pieces (empty pieces allowed)
+static vector<size_t> random_cuts(vf::Rng& r, size_t n, size_t pieces) {
+  vector<size_t> cuts;
+  for (size_t j = 1; j < pieces; j++) {
+    uint64_t how = r.below(5);
+    cuts.push_back(how == 0 ? 0 : how == 1 ? n : r.below(n + 1));
+  }
+  std::sort(cuts.begin(), cuts.end());
+  return cuts;
+}
+
+// Overload matrix: every print_data / format_data entry point x {no prev, prev with the SAME partition, prev cut
+// into a DIFFERENT number of pieces (1..4 vs 1..4, empty pieces included)} x colour {none, USE_COLOR, DISABLE_COLOR}
+// must print exactly what the iovec core prints for the contiguous buffers.
 static void overload_suite(vf::Rng& r) {
   FILE* tf = tmpfile();
   if (!tf) {
     fprintf(stderr, "[harness-error] tmpfile failed\n");
     exit(3);
   }
-  uint64_t n = C->qt<uint64_t>(4000, 30000) / C->nshards + 1;
+  static const uint64_t COLORS[3] = {0, F_COLOR, F_NOCOLOR};
+  static const char* COLOR_NAMES[3] = {"none", "USE_COLOR", "DISABLE_COLOR"};
+  uint64_t n = C->qt<uint64_t>(3000, 30000) / C->nshards + 1;
   for (uint64_t i = 0; i < n; i++) {
     size_t len = dump_len(r);
+    if (len == 0 && r.chance(3, 4)) len = 1 + r.below(40);
     DumpCase k = random_case(r, len);
     if (reaches_2_64(k.addr, len)) k.addr -= 32;  // the 2^64 edge is judged by the iov/io parts
-    if (k.cmode == 0 || k.cmode == 4) k.flags |= F_NOCOLOR;  // print_data would pick by isatty(); keep it deterministic
-    C->evaluations++;
-    C->crumb_s(fmt("overload addr=0x%" PRIX64 " flags=0x%" PRIX64 " len=%zu data=", k.addr, k.flags, len) + vf::hex(k.data).substr(0, 1400));
-    string ref, err;
-    if (!render_single(k, &ref, &err)) {
-      C->violation(dump_key(exc_class(err), k.addr, len), "format_data threw on a valid buffer: " + err, k.describe());
-      continue;
-    }
-    const void* pv = k.has_prev ? k.prev.data() : nullptr;
-    vector<struct iovec> iv = {{(void*)k.data.data(), len}};
-    vector<struct iovec> pvv = {{(void*)k.prev.data(), k.prev.size()}};
-    auto cmp = [&](const char* name, const string& got) {
-      if (got != ref) C->violation(string("overload:") + name + "-differs", "overload output differs from the iovec core", k.describe() + " got=[" + esc_text(got).substr(0, 500) + "]");
-    };
-    try {
-      cmp("format_data(ptr,size)", phosg::format_data(k.data.data(), len, k.addr, pv, k.flags));
-      cmp("format_data(string)", phosg::format_data(k.data, k.addr, pv, k.flags));
-      cmp("format_data(vector)", phosg::format_data(iv, k.addr, k.has_prev ? &pvv : nullptr, k.flags));
-      phosg::print_data(tf, k.data.data(), len, k.addr, pv, k.flags);
-      cmp("print_data(ptr,size)", read_stream(tf));
-      phosg::print_data(tf, k.data, k.addr, pv, k.flags);
-      cmp("print_data(string)", read_stream(tf));
-      phosg::print_data(tf, iv, k.addr, k.has_prev ? &pvv : nullptr, k.flags);
-      cmp("print_data(vector)", read_stream(tf));
-      phosg::print_data(tf, iv.data(), iv.size(), k.addr, k.has_prev ? pvv.data() : nullptr, k.has_prev ? 1 : 0, k.flags);
-      cmp("print_data(iovec*)", read_stream(tf));
-      if (!(k.flags & (F_COLOR | F_NOCOLOR)) || k.cmode == 0) {
-        // not a tty: print_data without colour flags must not colour either
-        phosg::print_data(tf, k.data, k.addr, pv, k.flags & ~(uint64_t)F_NOCOLOR);
-        cmp("print_data(auto-color,file)", read_stream(tf));
+    k.flags &= ~(uint64_t)(F_COLOR | F_NOCOLOR);
+    k.pkind = (int)r.below(N_PKIND);
+    k.prev = make_prev(r, k.pkind, k.data, k.addr);
+    uint64_t base_flags = k.flags;
+    C->crumb_s(fmt("overload addr=0x%" PRIX64 " flags=0x%" PRIX64 " len=%zu data=", k.addr, k.flags, len) + vf::hex(k.data).substr(0, 700) + " prev=" + vf::hex(k.prev).substr(0, 700));
+    // core results for the contiguous buffers: [colour][with prev]
+    string ref[3][2];
+    bool ref_ok = true;
+    for (int c = 0; c < 3 && ref_ok; c++)
+      for (int wp = 0; wp < 2 && ref_ok; wp++) {
+        DumpCase q = k;
+        q.flags = base_flags | COLORS[c];
+        q.has_prev = wp;
+        string err;
+        vf::poison_errno();
+        if (!render_single(q, &ref[c][wp], &err)) {
+          C->evaluations++;
+          C->violation(dump_key(exc_class(err), k.addr, len), "format_data threw on a valid buffer: " + err, q.describe());
+          ref_ok = false;
+        }
       }
-    } catch (const std::exception& e) {
-      C->violation("overload:throws", e.what(), k.describe());
+    if (!ref_ok) continue;
+    string what_case;
+    auto run = [&](const char* entry, const char* pcls, int c, int wp, const std::function<string()>& fn) {
+      C->evaluations++;
+      string got;
+      vf::poison_errno();
+      try {
+        got = fn();
+      } catch (const std::exception& e) {
+        C->violation(string("overload:") + entry + ":throws", string("entry point threw although the core renders the same buffers: ") + e.what(),
+            fmt("%s color=%s prev=%s %s ", entry, COLOR_NAMES[c], pcls, what_case.c_str()) + k.describe());
+        return;
+      }
+      if (got != ref[c][wp])
+        C->violation(string("overload:") + entry + "-differs", "entry point prints something else than the iovec core does for the same contiguous buffers",
+            fmt("%s color=%s prev=%s %s ", entry, COLOR_NAMES[c], pcls, what_case.c_str()) + k.describe() + " got=[" + esc_text(got).substr(0, 500) + "] core=[" + esc_text(ref[c][wp]).substr(0, 500) + "]");
+      C->cls(fmt("overload:%s:prev-%s", entry, pcls));
+      C->cls(fmt("overload:color-%s:prev-%s", COLOR_NAMES[c], pcls));
+    };
+    // A. contiguous entry points: (ptr,size) and std::string, string-returning and FILE* forms
+    for (int c = 0; c < 3; c++)
+      for (int wp = 0; wp < 2; wp++) {
+        uint64_t fl = base_flags | COLORS[c];
+        const void* pv = wp ? k.prev.data() : nullptr;
+        const char* pcls = wp ? "contiguous" : "none";
+        what_case = "";
+        run("format_data(ptr,size)", pcls, c, wp, [&]() { return phosg::format_data(k.data.data(), len, k.addr, pv, fl); });
+        run("format_data(string)", pcls, c, wp, [&]() { return phosg::format_data(k.data, k.addr, pv, fl); });
+        run("print_data(FILE*,ptr,size)", pcls, c, wp, [&]() {
+          phosg::print_data(tf, k.data.data(), len, k.addr, pv, fl);
+          return read_stream(tf);
+        });
+        run("print_data(FILE*,string)", pcls, c, wp, [&]() {
+          phosg::print_data(tf, k.data, k.addr, pv, fl);
+          return read_stream(tf);
+        });
+      }
+    // B. scatter/gather entry points: vector<iovec> and (iovec*, count), string-returning and FILE* forms
+    for (size_t cp = 1; cp <= 4; cp++) {
+      vector<size_t> ccuts = random_cuts(r, len, cp);
+      IovSet cur(k.data, ccuts, &r);
+      vector<struct iovec> cv(cur.v.begin(), cur.v.end());  // capacity == size: ASan sees a read past the last entry
+      for (int scen = 0; scen <= 5; scen++) {  // 0 = no prev, 1..4 = prev in that many pieces, 5 = same partition as cur
+        int c = (int)r.below(3);
+        int wp = scen != 0;
+        uint64_t fl = base_flags | COLORS[c];
+        size_t pp = scen == 5 ? cp : (size_t)scen;
+        vector<size_t> pcuts = scen == 5 ? ccuts : (scen ? random_cuts(r, len, pp) : vector<size_t>());
+        std::unique_ptr<IovSet> pset(wp ? new IovSet(k.prev, pcuts, &r) : nullptr);
+        vector<struct iovec> pvv;
+        if (wp) pvv.assign(pset->v.begin(), pset->v.end());
+        pvv.shrink_to_fit();
+        const vector<struct iovec>* pvp = wp ? &pvv : nullptr;
+        const char* pcls = !wp ? "none" : scen == 5 ? "same-partition" : pp > cp ? "more-pieces" : pp < cp ? "fewer-pieces" : "same-count-other-cuts";
+        what_case = fmt("cur-pieces=%s prev-pieces=%s", piece_str(cv).c_str(), wp ? piece_str(pvv).c_str() : "-");
+        run("format_data(vector)", pcls, c, wp, [&]() { return phosg::format_data(cv, k.addr, pvp, fl); });
+        run("format_data(iovec*,n)", pcls, c, wp, [&]() { return phosg::format_data(cv.data(), cv.size(), k.addr, wp ? pvv.data() : nullptr, wp ? pvv.size() : 0, fl); });
+        run("print_data(FILE*,vector)", pcls, c, wp, [&]() {
+          phosg::print_data(tf, cv, k.addr, pvp, fl);
+          return read_stream(tf);
+        });
+        run("print_data(FILE*,iovec*,n)", pcls, c, wp, [&]() {
+          phosg::print_data(tf, cv.data(), cv.size(), k.addr, wp ? pvv.data() : nullptr, wp ? pvv.size() : 0, fl);
+          return read_stream(tf);
+        });
+        C->cls(fmt("overload:pieces:%zuv%s", cp, !wp ? "none" : scen == 5 ? "same" : fmt("%zu", pp).c_str()));
+      }
     }
-    C->cls(fmt("overload:%s", CMODE_NAMES[k.cmode]));
+    if (i < 1) C->sample("overload matrix " + k.describe().substr(0, 200));
   }
   // documented refusal: prev of another size
   {
@@ -949,6 +1030,7 @@ static void io_grammar(const string& cases_path, const string& res_path) {
     string mask, data;
     uint8_t status = 0;
     try {
+      vf::poison_errno();
       data = phosg::parse_data_string(*ht, &mask);
     } catch (const std::exception& e) {
       status = 1;
